@@ -62,7 +62,7 @@ PROPS = {
         "suites": [("qf", None)],
         "search": True,
         "assumptions": [
-            "PARTIAL: the unbounded theorem C04_partial takes the refinement of the two write paths (add/remove map the canonical layout of S to the canonical layout of S∪{h} / S∖{h}) and the two read-path facts as explicit hypotheses (visible Prop definitions in Properties/C04.lean); they are supported by kernel-checked exhaustive enumeration on small tables (examples, labelled tests) and by the correspondence, which compares the complete real state with the model after every operation",
+            "C04_exact_set is for histories in which no call raised or reported `diverged` (the recursion budget of add_alt/resize/merge is a model artefact whose sufficiency is not proved; termination of remove, look-up, iteration and non-resizing add is proved)",
             "hashes are < 2^32; the three metadata Bitarrays are modelled as List Bool (C20 is the refinement)",
         ],
     },
